@@ -12,30 +12,37 @@ import (
 type Payload struct {
 	ID   string
 	Text string
+	// GoLit, when set, is the exact Go source spelling of the string literal for the
+	// string-literal placements (the default is strconv-style quoting of Text)
+	GoLit string
 }
 
 var Payloads = []Payload{
-	{"open", "(*"},
-	{"close", "*)"},
-	{"openclose", "(*)"},
-	{"closeopen", "*)(*"},
-	{"nested", "(* (* x *) *)"},
-	{"quote1", `"`},
-	{"quote2", `""`},
-	{"quote-close", `"*)`},
-	{"quote3", `a"b"c"d`},
-	{"backquote", "`"},
-	{"tab", "a\tb"},
-	{"ctrl", "a\x01b"},
-	{"nonascii", "héllo — ∀λ≠"},
-	{"dotnl", "end. "},
-	{"fakedef", "Definition x := 0."},
-	{"endcode", "End code."},
-	{"qed", "*) Definition evil: val := #0. (*"},
-	{"longline", strings.Repeat("long ", 3000)},
-	{"backslash", `a\b\\c\"`},
-	{"percent", "100%s %d %v"},
-	{"star-paren", "*(x)* ( * ) (  *"},
+	{"open", "(*", ""},
+	{"close", "*)", ""},
+	{"openclose", "(*)", ""},
+	{"closeopen", "*)(*", ""},
+	{"nested", "(* (* x *) *)", ""},
+	{"quote1", `"`, ""},
+	{"quote2", `""`, ""},
+	{"quote-close", `"*)`, ""},
+	{"quote3", `a"b"c"d`, ""},
+	{"backquote", "`", ""},
+	{"tab", "a\tb", ""},
+	{"ctrl", "a\x01b", ""},
+	{"nonascii", "héllo — ∀λ≠", ""},
+	{"dotnl", "end. ", ""},
+	{"fakedef", "Definition x := 0.", ""},
+	{"endcode", "End code.", ""},
+	{"qed", "*) Definition evil: val := #0. (*", ""},
+	{"longline", strings.Repeat("long ", 3000), ""},
+	{"backslash", `a\b\\c\"`, ""},
+	{"percent", "100%s %d %v", ""},
+	{"star-paren", "*(x)* ( * ) (  *", ""},
+	{"quote-hex-escape", "a\"b", `"a\x22b"`},
+	{"quote-unicode-escape", "\"", `"\u0022"`},
+	{"quote-octal-escape", "x\"\"y", `"x\042\042y"`},
+	{"close-comment-escape", "*)", `"\x2a\x29"`},
 }
 
 // Placement names where a payload goes.
@@ -43,6 +50,13 @@ var Placements = []string{"pkgdoc", "funcdoc", "structdoc", "constdoc", "bodycom
 
 func goStringLit(s string) (string, bool) {
 	return fmt.Sprintf("%q", s), true
+}
+
+func (p Payload) lit() string {
+	if p.GoLit != "" {
+		return p.GoLit
+	}
+	return fmt.Sprintf("%q", p.Text)
 }
 
 func rawStringLit(s string) (string, bool) {
@@ -104,7 +118,7 @@ func HostilePackage(name string, pl string, p Payload) (*Package, bool) {
 		}
 		fieldc = " // field " + ct
 	case "strlit":
-		strE, _ = goStringLit(p.Text)
+		strE, _ = p.lit(), true
 	case "rawstr":
 		var ok bool
 		strE, ok = rawStringLit(p.Text)
@@ -112,19 +126,19 @@ func HostilePackage(name string, pl string, p Payload) (*Package, bool) {
 			return nil, false
 		}
 	case "logprintf":
-		l, _ := goStringLit(p.Text)
+		l, _ := p.lit(), true
 		logE = "\tlog.Printf(" + l + ", a)\n"
 	case "logprintln":
-		l, _ := goStringLit(p.Text)
+		l, _ := p.lit(), true
 		logE = "\tlog.Println(" + l + ", a)\n"
 	case "fmtprintln":
-		l, _ := goStringLit(p.Text)
+		l, _ := p.lit(), true
 		logE = "\tfmt.Println(" + l + ")\n"
 	case "panicmsg":
-		l, _ := goStringLit(p.Text)
+		l, _ := p.lit(), true
 		logE = "\tif a == 12345 {\n\t\tpanic(" + l + ")\n\t}\n"
 	case "conststr":
-		constE, _ = goStringLit(p.Text)
+		constE, _ = p.lit(), true
 	}
 	b.WriteString(pkgdoc)
 	fmt.Fprintf(&b, "package %s\n\nimport (\n\t\"fmt\"\n\t\"log\"\n)\n\n", name)
@@ -137,7 +151,7 @@ func HostilePackage(name string, pl string, p Payload) (*Package, bool) {
 	b.WriteString("func after(t *T) uint64 {\n\treturn t.f + t.g + uint64(len(Greeting))\n}\n\n")
 	b.WriteString("func case_target() (string, uint64) {\n\treturn target(1)\n}\n\n")
 	b.WriteString("func case_after() uint64 {\n\treturn after(&T{f: 1, g: 2})\n}\n")
-	return &Package{Name: name, Source: b.String(), Cases: []string{"case_target", "case_after"}, Features: map[string]int{"hostile-" + pl + "-" + p.ID: 1}}, true
+	return &Package{Name: name, Source: b.String(), Cases: []string{"case_target", "case_after", ""}, Features: map[string]int{"hostile-" + pl + "-" + p.ID: 1}}, true
 }
 
 // ---------------------------------------------------------------- expression nesting
@@ -211,7 +225,7 @@ func NamePackage(pkg, n string) *Package {
 	fmt.Fprintf(&b, "package %s\n\nfunc %s(a uint64) uint64 {\n\treturn a + 1\n}\n\n", pkg, n)
 	fmt.Fprintf(&b, "func user(a uint64) uint64 {\n\tvar t uint64 = 0\n\tfor i := uint64(0); i < a; i++ {\n\t\tif i == 2 {\n\t\t\tcontinue\n\t\t}\n\t\tt = t + %s(i)\n\t}\n\ts := make([]uint64, 2)\n\ts[1] = t\n\tfor _, v := range s {\n\t\tt = t + v\n\t}\n\tp := new(uint64)\n\t*p = t\n\treturn *p + uint64(len(s))\n}\n\n", n)
 	b.WriteString("func case_user_0() uint64 {\n\treturn user(5)\n}\n\nfunc case_user_1() uint64 {\n\treturn user(0)\n}\n")
-	return &Package{Name: pkg, Source: b.String(), Cases: []string{"case_user_0", "case_user_1"}, Features: map[string]int{"name-" + n: 1}}
+	return &Package{Name: pkg, Source: b.String(), Cases: []string{"case_user_0", "case_user_1", ""}, Features: map[string]int{"name-" + n: 1}}
 }
 
 var CoqKeywordNames = []string{"Set", "Prop", "Type", "end", "exists", "fix", "forall", "fun", "in", "let", "match", "then", "with", "as", "at", "using", "where"}
